@@ -157,11 +157,18 @@ def run(ctx):
 
     cases = list(directed_cases())
     for name, hcells in summ_hard.triangles():            # notes/HARDENING.md families, every run
+        if isinstance(hcells, Exception):
+            S.report_family_refused(ctx, name, hcells)
+            continue
         for prem in (True, False):
             cases.append((hcells, prem, {"kind": "hard:" + name, "slice_diff": None}))
     n += len(cases)
     while len(cases) < n:
-        cases.append(g.summ_case())
+        try:
+            cases.append(g.summ_case())
+        except Exception as ex:  # noqa: BLE001  (a constructor refused valid generated input)
+            n -= 1
+            S.report_generator_refused(ctx, ex)
     per_file = 110
     files, recs, notes = [], [], []
     body = []
@@ -270,6 +277,9 @@ def run(ctx):
 
 def replay(ctx, data):
     from bermuda import Triangle
+
+    if data.get("op") == "build-family":
+        return S.replay_family(data)
 
     cells = S.cells_from_data(data["cells"])
     prem = data.get("summarize_premium", True)
